@@ -32,6 +32,19 @@ def ok_exc():
     return OK_EXC
 
 
+def holder(ctx, jwk, private, kind, full=True):
+    """How the application holds its (well-formed) key: a Key, a key set, or a callable returning the set.
+    The set forms matter where a kid is looked up, so they are enumerated for the unmutated token and for every kid value."""
+    from joserfc.jwk import KeySet
+    how = ctx.choose("key_held_as", ["key", "keyset", "callable"] if full else ["key"])
+    k = A.jkey(jwk, "dict", private=private)
+    if how == "key":
+        return k
+    other = scen.key(kind, 1)
+    ks = KeySet([k, A.jkey({**(other if (private or other["kty"] == "oct") else rjwk.public_of(other)), "kid": "sch\u00fcssel-2"}, "dict")])
+    return ks if how == "keyset" else (lambda obj: ks)
+
+
 def judge(name, r, what, cls):
     """-> (bucket, violations)"""
     if r.ok:
@@ -99,9 +112,9 @@ def h_jws_header(ctx):
     payload = CLAIMS if not path.startswith("7797") else b"hello-World_7"
     mode = ctx.deviate("mutation", ["none", "whole-header", "member"])
     jwk = scen.key(kind)
-    key = A.jkey(jwk, "dict", private=(jwk["kty"] == "oct"))
     what = f"{alg} {path}"
     cls = "valid"
+    name = None
     if mode == "none":
         tok = build_jws(alg, kind, path, base, None, payload)
     elif mode == "whole-header":
@@ -135,6 +148,7 @@ def h_jws_header(ctx):
         what += f" {name}:={v!r} ({pos})"
         cls = f"header member {name} = JSON {type(v).__name__ if v != '<deleted>' else 'deleted'} ({pos})"
     vs, bs = [], []
+    key = holder(ctx, jwk, private=(jwk["kty"] == "oct"), kind=kind, full=(mode == "none" or name == "kid"))
     algs = [alg] if ctx.choose("allow", ["alg", "all"]) == "alg" else scen.JWS_ALL + ["none"]
     for ename, ep in jws_entries(path):
         b, v1 = judge(ename, call(ep, copy.deepcopy(tok), key, algs), what, cls)
@@ -221,11 +235,11 @@ def h_jwe_header(ctx):
     form = ctx.choose("form", ["compact", "flattened", "general"])
     t = jwe_seed(alg, kind, enc, form)
     mode = ctx.deviate("mutation", ["none", "whole-header", "member"] + (["epk-member"] if alg.startswith("ECDH") else []))
-    key = A.jkey(scen.key(kind), "dict")
     sender = A.jkey(scen.key(kind, 5), "dict", private=False) if "1PU" in alg else None
     what = f"{alg}/{kind} {enc} {form}"
     cls = "valid"
     tok = None
+    name = None
     if mode == "none":
         tok = jwe_wire(t, form)
     elif mode == "whole-header":
@@ -248,15 +262,15 @@ def h_jwe_header(ctx):
         v = ctx.choose("value", ["<deleted>"] + values() + [["enc"], [["enc"]], ["deriveKey", {}], "enc", "sig"])
         prot = dict(t["protected"])
         rh = dict(t["recipients"][0][0] or {})
-        holder = prot if "epk" in prot else rh
-        epk = dict(holder["epk"])
+        epk_in = prot if "epk" in prot else rh
+        epk = dict(epk_in["epk"])
         if v == "<deleted>":
             if name not in epk:
                 return Outcome("noop", [], nontrivial=None)
             epk.pop(name)
         else:
             epk[name] = v
-        holder["epk"] = epk
+        epk_in["epk"] = epk
         t["recipients"][0] = (rh or None, t["recipients"][0][1])
         tok = jwe_wire(t, form, prot_text=rjws.hdr_json(prot) if prot != t["protected"] else None)
         what += f" epk.{name}:={v!r}"
@@ -285,6 +299,7 @@ def h_jwe_header(ctx):
         what += f" {name}:={v!r} ({pos})"
         cls = f"header member {name} = JSON {type(v).__name__ if v != '<deleted>' else 'deleted'} ({pos})"
     vs, bs = [], []
+    key = holder(ctx, scen.key(kind), private=True, kind=kind, full=(mode == "none" or name in ("kid", "skid")))
     algs = [alg, enc, "DEF"] if ctx.choose("allow", ["alg", "all"]) == "alg" else scen.JWE_ALL
     for ename, ep in jwe_entries(form, sender is not None):
         b, v1 = judge(ename, call(ep, copy.deepcopy(tok), key, algs, sender), what, cls)
